@@ -15,7 +15,7 @@ from ..protos import stun, dns
 
 PROP = "C02"
 RULE = ("random configurations (MAC; self-IP set absent or 1-6 mixed v4/v6 addresses; deny set absent or 1-4 addresses); "
-        "answerable contents (ARP request, echo v4/v6, NS, SYN, UDP STUN/DNS) sent to: every member of the authorised "
+        "answerable contents (ARP request, echo v4/v6, NS, SYN, UDP STUN with and without CHANGE-REQUEST (change-ip / change-port), DNS) sent to: every member of the authorised "
         "MAC set, every single-bit flip of each member, unmasked RFC 1112 mappings, solicited-node MACs of foreign "
         "addresses, random MACs; destination IPs in / one bit off / outside the self-IP set and multicast; sources in "
         "/ one bit off the deny set; every EtherType; every IP protocol number (v4 and v6). Non-trivial = out-of-scope "
@@ -76,6 +76,7 @@ def reply_identity_errors(r, cfg):
 def templates(rng, ns_target=None):
     tid = stun.gen_tid(rng, True)
     stun_req = stun.msg(1, tid)
+    stun_cr = stun.msg(1, tid, struct.pack("!HH", 3, 4) + b"\0\0\0" + bytes([rng.choice([2, 4, 6])]))    # change-port / change-ip / both
     dq = dns.header(rng.getrandbits(16) | 0x0100, 0x0100, 1) + dns.question([b"scope", b"test"])
     sp, dp = rng.randrange(1024, 65535), gen.rnd_port(rng)
     seq = rng.getrandbits(32)
@@ -92,6 +93,7 @@ def templates(rng, ns_target=None):
         ("syn4", lambda dm, cm, ci, si: l3(dm, cm, ci, si, P_TCP, pkt.tcp(ci, si, sp, dp, seq, 0, SYN))),
         ("stun4", lambda dm, cm, ci, si: l3(dm, cm, ci, si, P_UDP, pkt.udp(ci, si, sp, dp, stun_req))),
         ("dns4", lambda dm, cm, ci, si: l3(dm, cm, ci, si, P_UDP, pkt.udp(ci, si, sp, dp, dq))),
+        ("stuncr4", lambda dm, cm, ci, si: l3(dm, cm, ci, si, P_UDP, pkt.udp(ci, si, sp, dp, stun_cr))),
     ]
     t6 = [
         ("echo6", lambda dm, cm, ci, si: l3(dm, cm, ci, si, P_ICMP6, pkt.icmp6(ci, si, 128, 0, struct.pack("!HH", ident, 1) + b"scope"))),
@@ -100,6 +102,7 @@ def templates(rng, ns_target=None):
         ("ns6t", lambda dm, cm, ci, si: l3(dm, cm, ci, si, P_ICMP6, pkt.icmp6(ci, si, 135, 0, b"\0\0\0\0" + (ns_target or si) + b"\x01\x01" + cm))),
         ("syn6", lambda dm, cm, ci, si: l3(dm, cm, ci, si, P_TCP, pkt.tcp(ci, si, sp, dp, seq, 0, SYN))),
         ("stun6", lambda dm, cm, ci, si: l3(dm, cm, ci, si, P_UDP, pkt.udp(ci, si, sp, dp, stun_req))),
+        ("stuncr6", lambda dm, cm, ci, si: l3(dm, cm, ci, si, P_UDP, pkt.udp(ci, si, sp, dp, stun_cr))),
     ]
     return t4, t6
 
@@ -180,15 +183,16 @@ def build_cases(ctx, cfg, sweep):
         sip4 = rng.choice(s4) if s4 else gen.rnd_ip4(rng)
         sip6 = rng.choice(s6) if s6 else gen.rnd_ip6(rng)
         c4, c6 = clean_src(False), clean_src(True)
-        good4 = t4[1][1](cfg.mac, cm, c4, sip4)
-        good6 = t6[0][1](cfg.mac, cm, c6, sip6)
-        garp = t4[0][1](cfg.mac, cm, c4, sip4)
+        good4 = dict(t4)["echo4"](cfg.mac, cm, c4, sip4)
+        good6 = dict(t6)["echo6"](cfg.mac, cm, c6, sip6)
+        garp = dict(t4)["arp"](cfg.mac, cm, c4, sip4)
         for et in sweep:
             for good in (good4, good6, garp):
                 cases.append(("sweep/ethertype", good[:12] + struct.pack("!H", et) + good[14:], good))
-        stun4 = t4[3][1](cfg.mac, cm, c4, sip4)
-        stun6 = t6[3][1](cfg.mac, cm, c6, sip6)
-        syn4 = t4[2][1](cfg.mac, cm, c4, sip4)
+        byname4, byname6 = dict(t4), dict(t6)
+        stun4 = byname4["stun4"](cfg.mac, cm, c4, sip4)
+        stun6 = byname6["stun6"](cfg.mac, cm, c6, sip6)
+        syn4 = byname4["syn4"](cfg.mac, cm, c4, sip4)
         for p in range(256):
             for good in (stun4, syn4, good4):
                 ip = bytearray(good[14:])
